@@ -22,5 +22,8 @@ import (
 )
 
 func Fastrand() uint32 {
+	if v, ok := verifRand(); ok {
+		return v
+	}
 	return rand.Uint32()
 }
